@@ -201,6 +201,12 @@ def one_model(ctx, prog, script, rng):
             pairs = [pairs[0]] + rng.sample(pairs[1:], 11)
         for a, b in pairs:
             m = fresh()
+            prior = a is not None and rng.random() < 0.5
+            if prior:
+                # an earlier run left solution records on every period: a run that stops early leaves the rest of them alone
+                rec.plain(m, 'status')[:] = rng.choice(['.', 'F', 'S'])
+                rec.plain(m, 'iterations')[:] = 7
+                ctx.count('solve_calls_on_previously_solved_models')
             before = snapshot(m)
             kw = {}
             if a is not None:
@@ -236,10 +242,14 @@ def one_model(ctx, prog, script, rng):
                     ctx.violation('default-range', f'solve() visited {visited} / returned {res["ret"][1]}; periods whose reads stay inside the span are {periods}', case)
                     continue
             allowed = set()
-            for p in periods:
+            reached = periods
+            if 'exc' in res:
+                # a run that raised has changed only the periods it got as far as evaluating
+                reached = sorted({e[2] if e[2] >= 0 else e[2] + n for e in m.__dict__['v_log'] if e[0] == 'phase' and e[1] == 'eval'})
+            for p in reached:
                 allowed |= {(nm, p + k) for nm, k in writes} | {('status', p), ('iterations', p)}
             if changed - allowed:
-                ctx.violation('foreign-cells-changed', f'solve(start={a}, end={b}) changed {sorted(changed - allowed)}', case)
+                ctx.violation('foreign-cells-changed', f'solve(start={a}, end={b}) {"raised " + type(res["exc"]).__name__ + " after evaluating periods " + str(reached) + " and " if "exc" in res else ""}changed {sorted(changed - allowed)}', case)
                 continue
             if not infeasible:
                 check_reads(ctx, m.__dict__['v_log'], n, offs, case, periods)
